@@ -1111,7 +1111,27 @@ def replay(ctx: core.Ctx, rec: dict, from_corpus: bool = False) -> bool:
             ctx.drift('corpus history vs QP.C09.applyR', rec.get('_file'), res['drift'][1], '')
     elif kind == 'pf-c09-2':
         _known_findings(ctx)
+    elif kind == 'beside':
+        # the two-tree stream is deterministic given the seed: re-run it at the recorded seed / tier
+        sub = core.Ctx(ctx.pid, rec.get('tier', 'quick'), rec.get('seed', 0))
+        sub.violations = ctx.violations
+        _check_beside(sub, sub.n(300, 6000))
     elif kind == 'eq':
         ans = core.Lean.run([rec['line']])[0]
         print('model eq: %s' % ans)
+    elif 'first_differences' in rec:
+        # a correspondence that no longer checks: re-run the recorded histories
+        for d in rec['first_differences']:
+            case = d.get('case')
+            if isinstance(case, dict) and 'init' in case:
+                r, res = history_verdict(_unjson(case['init']), _unjson(case['ops']))
+                if res['violation']:
+                    ctx.violation(res['violation'][1], {'kind': 'history', 'init': case['init'], 'ops': case['ops']})
+                elif res['drift']:
+                    print('model and implementation differ: %s' % (res['drift'][1],))
+                    ctx.drift(d.get('correspondence', 'history'), case, res['drift'][1], '')
+                else:
+                    print('model and implementation agree on this history now')
+        if ctx.drifts:
+            ctx.finish()
     return len(ctx.violations) == before
